@@ -305,7 +305,20 @@ func runC19(c *core.Ctx) {
 		var got []string
 		var gotFeeds []*gtfs.Realtime
 		calls := 0
+		// slow consumer: the source has a branch that only runs when a second or more has passed since it was created (or
+		// since that branch last ran); a few directories are consumed with a pause before the first or before the last entry
+		slow := false
+		if c.Index < nEnum && (c.Index%64 == 5 || (entries[len(entries)-1].kind == "good" && c.Index%8 == 5)) {
+			slow = true
+			c.Feature("slow-consumer-pause-1.05s-before-every-call")
+			if entries[len(entries)-1].kind == "good" {
+				c.Feature("slow-consumer:last-entry-good")
+			}
+		}
 		for calls <= len(entries)+1 {
+			if slow && calls < len(entries) {
+				time.Sleep(1050 * time.Millisecond)
+			}
 			x := src.Next()
 			calls++
 			c.Eval(1)
